@@ -161,9 +161,14 @@ void prop_gen(Ctx &c) {
 				else if (shape < 11) { start = (int64_t)now - 5000 - std::get<7>(o); lines.push_back("RRULE:FREQ=MINUTELY;COUNT=5"); }   // entirely in the past
 				else { /* single occurrence at DTSTART */ }
 				unsigned peer = 1000 + (unsigned)(std::get<6>(o) == 0);
+				if (shape == 11 && std::get<4>(o) % 3 == 0) {
+					// an all-day event: its occurrences are due at midnight UTC (the daemon computes those wake-up times on a branch of its own)
+					int64_t day = ((int64_t)now / 86400 + 1 + std::get<5>(o) % 2) * 86400;
+					std::string b = "BEGIN:VCALENDAR\nVERSION:2.0\nBEGIN:VEVENT\nUID:" + uid + "\nSUMMARY:job " + uid + "\nDTSTART;VALUE=DATE:" + civil::fmt_ical(day * 1000, true) + "\nRRULE:FREQ=DAILY;COUNT=2\nEND:VEVENT\nEND:VCALENDAR\n";
+					script += submit_op(peer, b); nuids++; continue; }
 				script += submit_op(peer, event_ics(uid, start, lines)); nuids++;
 			} else if (sel < 45) { script += submit_op(1000, event_ics("job" + std::to_string(std::get<1>(o)), (int64_t)now, {}, true)); }
-			else if (sel < 80) { double dt = std::get<7>(o) % 7 == 0 ? std::get<7>(o) : std::get<4>(o) * (1 + std::get<7>(o) % 9); int lc = std::get<9>(o); double late = lc == 0 ? 0.001 : lc == 1 ? 0.4 : lc == 2 ? 1.0 : lc == 3 ? 7.5 : 130.0; now += dt; char b[96]; snprintf(b, sizeof b, "ADV %.3f %.3f\n", now, late); script += b; now += late; }
+			else if (sel < 80) { double dt = std::get<7>(o) % 7 == 0 ? std::get<7>(o) : std::get<4>(o) * (1 + std::get<7>(o) % 9); if (std::get<7>(o) % 40 == 1) dt = 30000 + std::get<7>(o) * 30; /* now and then most of a day passes */ int lc = std::get<9>(o); double late = lc == 0 ? 0.001 : lc == 1 ? 0.4 : lc == 2 ? 1.0 : lc == 3 ? 7.5 : 130.0; now += dt; char b[96]; snprintf(b, sizeof b, "ADV %.3f %.3f\n", now, late); script += b; now += late; }
 			else if (sel < 86) script += "EXITALL\n";
 			else if (sel < 94) script += "EXITN " + std::to_string(std::get<7>(o)) + "\n";
 			else if (sel < 97 && with_restart) script += "RESTART\n";
